@@ -3,6 +3,7 @@
 (2) apply it to /repo, run the quick check of its property (and of the properties listed in meta.json 'also_try'), undo it straight afterwards,
 (3) record what was run and what happened in the seed's meta.json under 'verif'.  Developer tool, not a registered check."""
 import json, os, subprocess, sys, time, re
+V = os.path.dirname(os.path.dirname(os.path.abspath(__file__)))  # the tree this script lives in
 
 FLAGS = {"C13": ("", "-lopenblas"), "C14": ("", "-llapack -lopenblas"), "C15": ("", "-lfftw3"), "C17": ("", "-lboost_serialization"),
          "C18": ("-I/usr/lib/x86_64-linux-gnu/openmpi/include -I/usr/lib/x86_64-linux-gnu/openmpi/include/openmpi", "-L/usr/lib/x86_64-linux-gnu/openmpi/lib -lmpi")}
@@ -24,17 +25,17 @@ for sd in [a for a in sys.argv[1:] if not a.startswith('--')]:
     def ok(line): return bool(line) and "demo_pristine_exit=0" in line[-1] and "suite_passes_with_patch=1" in line[-1] and not re.search(r"demo_patched_exit=0\b", line[-1])
     line = None
     for attempt in ([] if TRY_ONLY else ([flags] if "demo_flags" in v else [flags, (flags + " -DNDEBUG").strip()])):
-        rc, out = sh(f"/verif/selftest/confirm_seed.sh {sd} {attempt}", {"LIBS_DEMO": libs})
+        rc, out = sh(f"{V}/selftest/confirm_seed.sh {sd} {attempt}", {"LIBS_DEMO": libs})
         line = [l for l in out.splitlines() if l.startswith("RESULT")]
         flags = attempt
         if ok(line): break
     if not TRY_ONLY:
-      v["confirm_cmd"] = f"LIBS_DEMO='{libs}' selftest/confirm_seed.sh {os.path.relpath(sd, '/verif')} {flags}".strip()
+      v["confirm_cmd"] = f"LIBS_DEMO='{libs}' selftest/confirm_seed.sh {os.path.relpath(sd, V)} {flags}".strip()
       v["confirm_result"] = line[-1] if line else out[-300:]
       v["confirmed"] = ok(line)
     runs = []
     for pid in ([] if CONFIRM_ONLY else [prop] + meta.get("also_try", [])):
-        rc, out = sh(f"/verif/selftest/try_seed.sh {pid} {sd}")
+        rc, out = sh(f"{V}/selftest/try_seed.sh {pid} {sd}")
         keys = sorted(set(re.findall(r"^FAIL key=(\S+)", out, re.M)))
         cases = re.findall(r"^case: (.*)$", out, re.M)[:2]
         m = re.search(r"check exit=(\d+)", out)
